@@ -132,7 +132,7 @@ def run(ctx):
         "stack bound checked on the ASan build (frames larger than the shipped -O2 build): <= %d bytes" % STACK_MAX,
     ]
     bad = common.forbidden_scan()
-    cres = common.coq_property(PID)
+    cres = common.coq_properties([PID, "C01_parser"])
     common.proof_coverage(ctx, cres)
     proof_broken = (not cres["ok"]) or bool(bad)
 
@@ -189,6 +189,6 @@ def run(ctx):
     for v in viol[:6]:
         ctx.violation("c-" + v["clauses"][0][:40], {"replay_cmd": "bin/check C01 --replay <this file>", "sanitizer": crash_info, **v})
     if not viol and proof_broken:
-        ctx.violation("proof-broken", {"broken": "Properties_C01.v no longer checks", "failed_theorems": cres["failed"],
+        ctx.violation("proof-broken", {"broken": "Properties_C01.v / Properties_C01_parser.v no longer check", "failed_theorems": cres["failed"],
                                        "broken_at": cres.get("broken_at"), "forbidden": bad, "log_tail": cres["log"][-3000:],
                                        "search": "sanitizer-backed exploration of %d cases found no failing input" % len(cases)}, found_input=False)
